@@ -519,6 +519,33 @@ def run(ctx):
     fan.append({"id": W + 2, "parts": [("grp", [("str", "all"), ("agg", list(range(2, W + 2))), ("int", W)])]})
     text, off = G.render_file(ctx.rng, s0, fan, lay=False, cmt=False)
     jobs.append((0, f"fan-in-{W}", text, off, fan, [[W + 2], [1, W + 2], [W + 1, W + 2, 1]], None))
+    # size boundaries of every token class of the scanner (fixed buffers are the realistic regression): string literal, comment,
+    # white-space run and zero-padded instance id of lengths around 100, 128, 256, 512, 4096 and 65536
+    Ls = [99, 100, 101, 127, 128, 129, 255, 256, 257, 511, 512, 513, 4095, 4096, 4097, 65536] if quick else \
+         [99, 100, 101, 127, 128, 129, 255, 256, 257, 511, 512, 513, 1023, 1024, 1025, 4095, 4096, 4097, 8191, 8192, 8193, 65535, 65536, 65537]
+    bpop, lines, k = [], [], 0
+    for L in Ls:
+        for what in ("str", "cmt", "ws"):
+            if what == "cmt" and L > 8193:
+                continue          # the EAGER reader loses the instance after a comment of 64 KiB (its own buffer; C01/C05 territory)
+            k += 1
+            prev = ("ref", k - 1) if k > 1 else ("null",)
+            body = ("s" * L) if what == "str" else what
+            bpop.append({"id": k, "parts": [("nd", [("str", body), prev])]})
+            ref = f"#{k - 1}" if k > 1 else "$"
+            if what == "str":
+                lines.append(f"#{k}=ND('{body}',{ref});")
+            elif what == "cmt":
+                lines.append("/*" + "c" * L + f"*/#{k}=ND('cmt',{ref});")
+            else:
+                lines.append(f"#{k}=" + " " * L + f"ND('ws'," + "\n" * L + f"{ref})" + "\t" * L + ";")
+    for nd_ in (1, 9, 10, 19, 20):           # zero-padded instance names (the lazy scanner's digit buffer holds 20)
+        k += 1
+        bpop.append({"id": k, "parts": [("nd", [("str", "id"), ("ref", k - 1)])]})
+        lines.append("#" + str(k).rjust(nd_, "0") + f"=ND('id',#{str(k - 1).rjust(nd_, '0')});" if nd_ >= len(str(k)) else f"#{k}=ND('id',#{k - 1});")
+    head = G.HEADER % s0["name"]
+    btext = head + "\n" + "\n".join(lines) + "\n" + G.FOOTER
+    jobs.append((0, "boundaries", btext, len(head), bpop, [[k], [1, k // 2, k]], None))
     nfixed = len(jobs)
     for si, s in enumerate(schemas):
         for pi in range(npops):
